@@ -172,3 +172,39 @@ Proof.
     + intros Hnex old Hold. assert (Hn : ~ In p L) by (intros Hc; apply Hnex; apply HI; exact Hc).
       rewrite (Hout p Hn), Hold in Hw. inversion Hw; subst. exact Hg.
 Qed.
+
+(* ================= repeated labels: where the duplicate-free guard is NOT needed =================
+   With a given stop label (closed stop) the slice theorems hold for spans with repeated labels too — list / tuple spans look a
+   label up by its FIRST occurrence (pos), and so does the slice.  Only an OPEN stop needs NoDup: it is resolved by looking up
+   the span's last label, whose first occurrence need not be the end of the span (dup_span_open_slice_refuted). *)
+Lemma resolve_slice_closed_stop (lc : label -> outcome loc) (sp : span) (a : option label) (y : label) (s : option Z) (pa pb : nat) :
+  locate_spec (span_labels sp) lc ->
+  start_pos (span_labels sp) a = Some pa -> pos y (span_labels sp) = Some pb ->
+  resolve_slice_with lc sp a (Some y) s = Ret (Z.of_nat pa, Z.of_nat pb + 1, step_of s).
+Proof.
+  intros Hspec Ha Hb. unfold resolve_slice_with.
+  pose proof (Hspec y) as Sy. rewrite Hb in Sy. destruct Sy as [fy Ly].
+  destruct a as [x|]; simpl in *.
+  - pose proof (Hspec x) as Sx. rewrite Ha in Sx. destruct Sx as [fx Lx]. rewrite Lx, Ly. destruct s; reflexivity.
+  - unfold span_first. destruct (span_labels sp) as [|x r] eqn:E; [discriminate|]. inversion Ha; subst pa.
+    pose proof (Hspec x) as Sx. try rewrite E in Sx. rewrite pos_hd in Sx. destruct Sx as [fx Lx]. simpl. rewrite Lx, Ly. destruct s; reflexivity.
+Qed.
+
+Theorem slice_get_closed_stop_any_span {V} (lc : label -> outcome loc) (st : cstate V) (name : string) (sr : series V)
+        (a : option label) (y : label) (s : option Z) (pa pb : nat) :
+  locate_spec (span_labels (c_span st)) lc ->
+  lookup name (c_vars st) = Some sr ->
+  length (s_data sr) = length (span_labels (c_span st)) ->
+  start_pos (span_labels (c_span st)) a = Some pa -> pos y (span_labels (c_span st)) = Some pb -> 0 < step_of s ->
+  let L := py_slice_positions (length (s_data sr)) (Some (Z.of_nat pa)) (Some (Z.of_nat pb + 1)) (step_of s) in
+  get_item_with lc st name (KSlice a (Some y) s) = Ret (RArr (gather (s_data sr) L))
+  /\ (forall q, In q L <-> exists i : nat, Z.of_nat q = Z.of_nat pa + Z.of_nat i * step_of s /\ (q <= pb)%nat)
+  /\ ((pb < pa)%nat -> L = []).
+Proof.
+  intros Hspec Hv Hlen Ha Hb Hs L.
+  pose proof (start_pos_lt _ _ _ Ha) as La. apply pos_Some in Hb as Hb'. destruct Hb' as [_ Lb]. rewrite <- Hlen in La, Lb.
+  destruct (inclusive_slice_positions (length (s_data sr)) pa pb (step_of s) La Lb Hs) as [H1 [_ H3]].
+  split; [|split; [exact H1 | exact H3]].
+  unfold get_item_with. rewrite Hv. rewrite (resolve_slice_closed_stop lc (c_span st) a y s pa pb Hspec Ha Hb). simpl.
+  unfold np_slice_positions. replace (step_of s =? 0) with false by lia. replace (0 <? step_of s) with true by lia. reflexivity.
+Qed.
